@@ -14,7 +14,7 @@ LEVEL_TEXT = ('Lean 4 theorems about an executable model of Spectrum._ufunc/_int
               'the smaller minimum and ends at the larger maximum; add/multiply (any commutative op) are commutative incl. the '
               'left/right sampling swap; scalar/vector operands act element-wise on the unchanged grid; the right operand is used '
               'in the left operand\'s unit. Model tied to the code by differential testing at ℚ.')
-LEVEL_NOTE = ('the scalar grid arithmetic of _interp_common (range, guard, number of intervals, linspace arguments), which grid points belong to an operand (`_intersect`: Gen.intersectKeeps, and the two `_intersect(sᵢ.wave, commonwave, tol)` / `np.clip(commonwave[index], min, max)` call shapes checked by the generator; the model\'s operandAt is proved equal to the regenerated test for all arguments — operand_membership_is_code, with intersect_keeps_iff / intersect_keeps_ends stating the closed range widened by the guard band), which arithmetic each operator ends in (`a + b` → Spectrum.add → _ufunc(np.add, other, sampling, method, fill_value): Gen.operatorOp/operatorMethod/methodOp/reflectedAliases; pass-through order, the defaults and the left-operand-first order of the ufunc call are checked by the generator; operators_dispatch, add_mul_operators_commute), what each _sampling option selects and the wiring of Spectrum._ufunc (element-wise operand kinds, conversion of the right operand on a copy, no write to self, result units from the left operand) are regenerated as Gen/InterpGrid.lean; the model consumes them (bridge lemmas gridNum_eq, commonGrid_eq, samplingOf_eq) and operands_unchanged_structural is about the wiring. unit invariance is proved for unitless spectra (`unit_invariance_unitless`: re-expressing both operands and a numeric sampling in any unit rescales the result\'s grid and keeps its values, every operator; `ufunc_scale` is the k>0 core) and, end to end from valid operands (`ufunc_of_valid`: WF, valid grids, ≥ 2 samples, a named sampling option ⇒ the operation succeeds on a valid grid from the smaller minimum to the larger maximum with one value per wavelength and pointwise values; all side conditions derived), the result is a spectrum; the guard band is `operand_guard_band`; commutativity at driver level is `ufuncU_comm_same_units` (same units) and `ufuncU_comm_across_units` (unitless operands in different units); for density spectra (scope in ASSUMPTIONS) unit invariance and commutativity across units are proved for operators homogeneous of degree one, i.e. addition and subtraction (ufunc_value_scale: dividing both operands\' values and the fill by k divides the result by k; unit_invariance_density; ufuncU_comm_across_units_density and its instance add_comm_across_units_density, fill 0, equal flux units); for multiplication of densities only the '
+LEVEL_NOTE = ('the scalar grid arithmetic of _interp_common (range, guard, number of intervals, linspace arguments), which grid points belong to an operand (`_intersect`: Gen.intersectKeeps, and the two `_intersect(sᵢ.wave, commonwave, tol)` / `np.clip(commonwave[index], min, max)` call shapes checked by the generator; the model\'s operandAt is proved equal to the regenerated test for all arguments — operand_membership_is_code, with intersect_keeps_iff / intersect_keeps_ends stating the closed range widened by the guard band), which arithmetic each operator ends in (`a + b` → Spectrum.add → _ufunc(np.add, other, sampling, method, fill_value): Gen.operatorOp/operatorMethod/methodOp/reflectedAliases; pass-through order, the defaults and the left-operand-first order of the ufunc call are checked by the generator; operators_dispatch, add_mul_operators_commute), the three refusals of the `Spectrum.wave` setter (Gen.waveRejectsSample / waveRejectsStep, sortedness guard checked structurally; wave_setter_is_code ties the model\'s validWave to them), what each _sampling option selects and the wiring of Spectrum._ufunc (element-wise operand kinds, conversion of the right operand on a copy, no write to self, result units from the left operand) are regenerated as Gen/InterpGrid.lean; the model consumes them (bridge lemmas gridNum_eq, commonGrid_eq, samplingOf_eq) and operands_unchanged_structural is about the wiring. unit invariance is proved for unitless spectra (`unit_invariance_unitless`: re-expressing both operands and a numeric sampling in any unit rescales the result\'s grid and keeps its values, every operator; `ufunc_scale` is the k>0 core) and, end to end from valid operands (`ufunc_of_valid`: WF, valid grids, ≥ 2 samples, a named sampling option ⇒ the operation succeeds on a valid grid from the smaller minimum to the larger maximum with one value per wavelength and pointwise values; all side conditions derived), the result is a spectrum; the guard band is `operand_guard_band`; commutativity at driver level is `ufuncU_comm_same_units` (same units) and `ufuncU_comm_across_units` (unitless operands in different units); for density spectra (scope in ASSUMPTIONS) unit invariance and commutativity across units are proved for operators homogeneous of degree one, i.e. addition and subtraction (ufunc_value_scale: dividing both operands\' values and the fill by k divides the result by k; unit_invariance_density; ufuncU_comm_across_units_density and its instance add_comm_across_units_density, fill 0, equal flux units); for multiplication of densities only the '
               'hand-over step is proved (`unit_handover_partial`, a PARTIAL theorem: the right operand is used in the left operand\'s unit and the result carries the left units; it does not give invariance) and the clause, like "operands unchanged" and "result is a new object", '
               'is evaluated on the implementation by the oracle in every run (all 4 units, snapshots). Trusted: interp1d(linear), '
               'np.linspace, np.clip.')
